@@ -135,7 +135,7 @@ def route_obligations(core, combos):
                                  "a pending subscribe is answered on its own channel; the reserved unsubscribe slot swallows its ack; an id matching nothing pending (or an active "
                                  "subscription) completes nothing and is reported as an error",
                             bounds=f"table built by real operations: {', '.join(kinds)}; all ids any pairwise-different u64; response id any u64",
-                            keydetail="routing", replay=dict(scenario="c03_subid_collision" if "pending_sub" in kinds else "c03_fast_reply", vars={}, fixed={}, region=z3.BoolVal(True)), **common))
+                            keydetail="routing", replay=dict(scenario="c03_routing", vars={}, fixed={}, region=z3.BoolVal(True)), **common))
         out.append(R.decide(name + ":no-panic", "kernel", z3.Or(*panics) if panics else z3.BoolVal(False), rs, desc="no panic in the routing step", bounds="as above", keydetail="panic", **common))
         out.append(R.decide(name + ":index-invariant", "kernel", z3.Or(*inv_viol) if inv_viol else z3.BoolVal(False), rs,
                             desc="after the step the reverse index (subscription id -> request id) and the active subscriptions still correspond one to one - "
